@@ -8,7 +8,7 @@ from common import Rng, F, close
 
 PROP = 'C15'
 MODEL_OPS = 'Misc.convert (family + exact scale factor)'
-RULE = ('all 5x5 stored/requested pairs of {mJy, Jy, erg cm-2 s-1, erg s-1, W m-2}, 1-5 apertures, distances over 6 decades, random frequency grids (2-12 points, either order); '
+RULE = ('read order nu or wav (drawn per case); all 5x5 stored/requested pairs of {mJy, Jy, erg cm-2 s-1, erg s-1, W m-2}, 1-5 apertures, distances over 6 decades, random frequency grids (2-12 points, either order); '
         'per pair: read in the requested unit (vs the model), write that SED and read it back in the stored unit (A->B->A) and in a third unit (A->B->C vs A->C); '
         'an unsupported requested unit must be refused. quick: 25 pairs x 8; thorough: 25 x 200. non-trivial = stored and requested units differ.')
 EXHAUSTIVE = {'quick': True, 'thorough': True}
@@ -32,7 +32,7 @@ def generate(tier, seed):
                 nap = rng.randint(1, 5)
                 cases.append(dict(stored=a, requested=b, third=rng.choice(names), nu=nu, order=rng.choice(['incr', 'decr']),
                                   flux=[[rng.logdyadic(1e-3, 1e3, 10) for _ in nu] for _ in range(nap)], dist_kpc=rng.logdyadic(1e-3, 1e3, 8),
-                                  bad=rng.choice(['K', 'm', 'Hz', 'kg']) if r == 0 else None))
+                                  bad=rng.choice(['K', 'm', 'Hz', 'kg']) if r == 0 else None, read_order=rng.choice(['nu', 'wav'])))
     return cases
 
 
@@ -56,7 +56,7 @@ def impl(case):
         s.write(p)
 
         def rd(path, unit):
-            r = SED.read(path, unit_flux=u.Unit(unit), order='nu')
+            r = SED.read(path, unit_flux=u.Unit(unit), order=case.get('read_order', 'nu'))
             return r, dict(nu=[float(x) for x in r.nu.to(u.Hz).value], flux=[[float(x) for x in row] for row in r.flux.to(u.Unit(unit)).value],
                            error=[[float(x) for x in row] for row in r.error.to(u.Unit(unit)).value], unit=str(r.flux.unit), d_cm=float(r.distance.to(u.cm).value))
         rb, out['B'] = rd(p, case['requested'])
@@ -104,9 +104,13 @@ def judge(case, im, mo):
     disagree, fail = [], []
     B = im['B']
     nu = sorted(case['nu'])
+    pos = {}
+    for v in nu:      # column of the returned arrays that holds frequency v (either read order)
+        k = min(range(len(B['nu'])), key=lambda t: abs(B['nu'][t] - v))
+        pos[v] = k
     for j, col in enumerate(mo):
         for a, want in enumerate(col):
-            got = B['flux'][a][j]
+            got = B['flux'][a][pos[nu[j]]]
             if not close(got, want, 1e-12, 0):
                 disagree.append('%s -> %s at nu=%r aperture %d: implementation %r, model %r' % (case['stored'], case['requested'], nu[j], a, got, float(want)))
                 break
@@ -121,8 +125,8 @@ def judge(case, im, mo):
             x = F(row[j]) * ka
             base = x * F(v) if fa == 'Fnu' else (x if fa == 'Fint' else x / (d * d))           # erg/cm2/s
             want = (base / F(v) if fb == 'Fnu' else (base if fb == 'Fint' else base * d * d)) / kb
-            if abs(F(B['flux'][a][j]) - want) > Fraction(1, 10 ** 11) * abs(want):
-                fail.append('relations: %r %s at nu=%r, d=%r cm read as %r %s; F = nu F_nu, L = F d^2 give %r' % (row[j], case['stored'], v, float(d), B['flux'][a][j], case['requested'], float(want)))
+            if abs(F(B['flux'][a][pos[v]]) - want) > Fraction(1, 10 ** 11) * abs(want):
+                fail.append('relations: %r %s at nu=%r, d=%r cm read (order=%s) as %r %s; F = nu F_nu, L = F d^2 give %r' % (row[j], case['stored'], v, float(d), case.get('read_order'), B['flux'][a][pos[v]], case['requested'], float(want)))
                 break
         if fail:
             break
